@@ -259,11 +259,25 @@ def shards(tier, seed):
     nsh = 16 if tier == "quick" else 64
     for i in range(nsh):
         out.append({"part": "random", "n": n // nsh, "seed": core.derive_seed(seed, "r", i)})
+    from vlib import fuzz
+
+    out += fuzz.shards("C20", tier, seed, quick=(2, 3000), thorough=(16, 100000))
     return out
+
+
+def fuzz_strategy(which):
+    return _hyp_cases(), (lambda c: c)
 
 
 def run_shard(spec):
     col = core.Collector()
+    if spec["part"] == "atheris":
+        import sys
+
+        from vlib import fuzz
+
+        fuzz.run_shard(col, sys.modules[__name__], spec)
+        return col
     if spec["part"] == "exhaustive":
         slot = spec["slot"]
         for s in _exh_names(spec["L"]):
